@@ -25,6 +25,21 @@ def chars(bytestring):
     return "".join(chr(byte) for byte in bytestring)
 
 
+def _textcodec(encoding):
+    """
+    Return the ``CodecInfo`` for ``encoding``; like ``str.encode`` and
+    ``bytes.decode`` refuse codecs that are no text encodings (rot13, base64,
+    hex, zlib ...) with a ``LookupError``.
+    """
+    info = codecs.lookup(encoding)
+    if not getattr(info, "_is_text_encoding", True):
+        raise LookupError(
+            "%r is not a text encoding; it cannot be the encoding of a style sheet"
+            % encoding
+        )
+    return info
+
+
 def detectencoding_str(input, final=False):  # noqa: C901
     """
     Detect the encoding of the byte string ``input``, which contains the
@@ -239,7 +254,7 @@ def decode(input, errors="strict", encoding=None, force=True):
             encoding = _encoding
 
     # NEEDS: change in parse.py (str to bytes!)
-    (input, consumed) = codecs.getdecoder(encoding)(input, errors)
+    (input, consumed) = _textcodec(encoding).decode(input, errors)
     return (_fixencoding(input, str(encoding), True), consumed)
 
 
@@ -254,7 +269,7 @@ def encode(input, errors="strict", encoding=None):
         input = _fixencoding(input, str(encoding), True)
     if encoding == "css":
         raise ValueError("css not allowed as encoding name")
-    encoder = codecs.getencoder(encoding)
+    encoder = _textcodec(encoding).encode
     return (encoder(input, errors)[0], consumed)
 
 
@@ -317,7 +332,7 @@ class IncrementalDecoder(codecs.IncrementalDecoder):
                 ) or self.encoding is None:  # Take the encoding from the input
                     self.encoding = encoding
             self.buffer = ""  # drop buffer, as the decoder might keep its own
-            decoder = codecs.getincrementaldecoder(self.encoding)
+            decoder = _textcodec(self.encoding).incrementaldecoder
             self.decoder = decoder(self._errors)
         if self.headerfixed:
             return self.decoder.decode(input, final)
@@ -371,7 +386,7 @@ class IncrementalDecoder(codecs.IncrementalDecoder):
         self.buffer = state[1]
         self.headerfixed = state[2]
         if state[3] is not None:
-            self.decoder = codecs.getincrementaldecoder(self.encoding)(self._errors)
+            self.decoder = _textcodec(self.encoding).incrementaldecoder(self._errors)
             self.decoder.setstate(state[4])
         else:
             self.decoder = None
@@ -418,7 +433,7 @@ class IncrementalEncoder(codecs.IncrementalEncoder):
             if self.encoding is not None:
                 if self.encoding == "css":
                     raise ValueError("css not allowed as encoding name")
-                info = codecs.lookup(self.encoding)
+                info = _textcodec(self.encoding)
                 encoding = self.encoding
                 if self.encoding.replace("_", "-").lower() == "utf-8-sig":
                     input = _fixencoding(input, "utf-8", True)
@@ -457,7 +472,7 @@ class IncrementalEncoder(codecs.IncrementalEncoder):
         self.encoding = state[0]
         self.buffer = state[1]
         if state[2] is not None:
-            self.encoder = codecs.getincrementalencoder(self.encoding)(self._errors)
+            self.encoder = _textcodec(self.encoding).incrementalencoder(self._errors)
             self.encoder.setstate(state[4])
         else:
             self.encoder = None
@@ -492,7 +507,7 @@ class StreamWriter(codecs.StreamWriter):
             if self.encoding is not None:
                 if self.encoding == "css":
                     raise ValueError("css not allowed as encoding name")
-                self.streamwriter = codecs.getwriter(self.encoding)(
+                self.streamwriter = _textcodec(self.encoding).streamwriter(
                     self.stream, self._errors
                 )
                 encoding = self.encoding
@@ -541,7 +556,7 @@ class StreamReader(codecs.StreamReader):
                     explicit and not self.force
                 ) or self.encoding is None:  # Take the encoding from the input
                     self.encoding = encoding
-            streamreader = codecs.getreader(self.encoding)
+            streamreader = _textcodec(self.encoding).streamreader
             streamreader = streamreader(self.stream, self._errors)
             (output, consumed) = streamreader.decode(input, errors)
             encoding = self.encoding
